@@ -327,6 +327,14 @@ Fixpoint apply_items (f : ictx -> str -> str -> ires) (u : umode) (c : ictx) (it
       end
   end.
 
+(* _apply_actions walks a mapping breadth first: the top-level keys in their order, then the keys inside the
+   sub-command sections *)
+Definition is_sub_item (D : decl) (kv : str * str) : bool :=
+  let '(h, rest) := split_dot (fst kv) in
+  match rest, alookup h (d_subs D) with Some _, Some _ => true | _, _ => false end.
+Definition bfs (D : decl) (items : list (str * str)) : list (str * str) :=
+  filter (fun kv => negb (is_sub_item D kv)) items ++ filter (is_sub_item D) items.
+
 (* the sub-command a configuration selects (get_subcommands): explicit choice, else the first declared
    sub-command that has settings *)
 Definition selected (D : decl) (chosen : option str) (c : ictx) : option str :=
@@ -535,10 +543,10 @@ Fixpoint scan_root (fx : fixes) (dd0 : option dv) (D : decl) (i : nat) (hs : boo
                -> _parse_common -> print_config_if_requested: the request is consumed HERE, with the
                content of the config alone.  Inside parse_args --print_shtab exists already (repaired: it is
                no configuration key). *)
-            match apply_items (apply_item fx dd0 D (negb (fx_sh fx))) UKeep c items with
+            match apply_items (apply_item fx dd0 D (negb (fx_sh fx))) UKeep c (bfs D items) with
             | AFail c' => stopc c' cv (OErr EPre)
             | AOk c' =>
-                let hc := match apply_items (apply_item fx dd0 D (negb (fx_sh fx))) UKeep ic0 items with
+                let hc := match apply_items (apply_item fx dd0 D (negb (fx_sh fx))) UKeep ic0 (bfs D items) with
                           | AOk x => x | AFail _ => ic0 end in
                 let here := ic_mention hc in
                 (* the content is loaded with prev_cfg = the namespace so far: the d printed is the merged one *)
@@ -603,7 +611,7 @@ Definition parse_common (D : decl) (pend : pending) (chosen : option str) (c : i
   end.
 
 Definition exec_items (fx : fixes) (D : decl) (v : view) (unknown_ok : umode) (items : list (str * str)) : out * writes :=
-  match apply_items (apply_item fx (v_ddef v) D (v_shtab v && negb (fx_sh fx))) unknown_ok ic0 items with
+  match apply_items (apply_item fx (v_ddef v) D (v_shtab v && negb (fx_sh fx))) unknown_ok ic0 (bfs D items) with
   | AFail c =>
       (OErr EPre, {| w_pending := v_pending v; w_shtab := v_shtab v; w_help_skip := v_help_skip v;
                      w_ddef := dd_after fx (v_ddef v) c (OErr EPre);
